@@ -4,6 +4,7 @@ generated executable compute layer, at `Sym`.  One request per line:
     C <method> <self> <args…>      public property / method / conversion
     O <operator> <self> <args…>    operator
     J <method> <self> <args…>      the same property / method in numba-COMPILED code (`Glue/Numba.lean`)
+    W <declared result> <self> <0|1>  `_wrap_result` called directly with raw tuple r0..r3 (e.g. `W az=xy,lon=eta,none A.m:rhophi:z:t:1 1`)
 vector token  `<g|m>:<az>:<lon|->:<tmp|->:<index>`   (coordinates are the variables x<i>, y<i>, …)
 argument tokens  `v=<vector>`  `s=<var>`  `i=<int>`  `f=<mantissa>e<exp>`  `o=<string>`  `k=<kw>=<scalar token>`
 Answer: `-> <g|m><dim> <az> <lon|-> <tmp|-> :: e1 | e2 | …`  |  `-> <expr>`  |  `!! <ErrorKind>`
@@ -103,6 +104,15 @@ def parseStep (ty : VT) (tok : String) : Option (Step Sym) :=
 
 def describeVec (v : Vec Sym) : String := describe (.ok (.vec v))
 
+/-- one declared result part of a `W` (direct `_wrap_result`) request: `az=xy` `lon=eta` `tmp=tau` `none` -/
+def parseRP (tok : String) : Option RP :=
+  match tok.splitOn "=" with
+  | ["az", a] => (parseAz a).map RP.az
+  | ["lon", "z"] => some (.lon .z) | ["lon", "theta"] => some (.lon .theta) | ["lon", "eta"] => some (.lon .eta)
+  | ["tmp", "t"] => some (.tmp .t) | ["tmp", "tau"] => some (.tmp .tau)
+  | ["none"] => some .none
+  | _ => none
+
 def answer (line : String) : String :=
   match (line.trimAscii.toString.splitOn " ").filter (· ≠ "") with
   | "H" :: self :: steps =>
@@ -114,6 +124,12 @@ def answer (line : String) : String :=
     | some sts =>
       " ;; ".intercalate ((run ev K A v sts).map fun (v', e) =>
         match e with | some e => "!! " ++ e.str ++ " " ++ describeVec v' | none => describeVec v')
+  | ["W", spec, self, flag] =>
+    -- `_wrap_result` called directly: declared result `spec`, raw tuple r0 r1 r2 r3, handler `self`, momentum flag of the class passed in
+    match parseVec self, (spec.splitOn ",").mapM parseRP with
+    | some v, some parts =>
+      describe ((wrapVec v v.ty.be (flag == "1") [Sym.var "r0", Sym.var "r1", Sym.var "r2", Sym.var "r3"] parts).map Res.vec)
+    | _, _ => "bad-op"
   | kind :: meth :: self :: rest =>
     match parseVec self, rest.mapM parseArg with
     | some v, some args =>
